@@ -232,3 +232,48 @@ pub fn full_alpha() -> Alpha {
         max_list: 3,
     }
 }
+
+/// Every node kind in every child position: all ASTs of depth <= 2 whose inner nodes are
+/// one representative per node kind over leaves a, b, c (plus X under fixed points). This is
+/// bounded by DEPTH rather than by size, so e.g. `if a then b else c | d`-shaped sentences
+/// (6 nodes) are present although the size-bounded enumerations stop earlier.
+pub fn depth2_family() -> Vec<Ast> {
+    use crate::refl::Cmp;
+    let a = || Ast::var("a");
+    let b = || Ast::var("b");
+    let c = || Ast::var("c");
+    // depth-<=1 forms (leaf children only)
+    let forms: Vec<Ast> = vec![
+        a(),
+        Ast::True,
+        Ast::not(a()),
+        Ast::bin(Bin::Or, a(), b()),
+        Ast::bin(Bin::ImpliesInv, b(), c()),
+        Ast::ite(a(), b(), c()),
+        Ast::q(true, &["a"], b()),
+        Ast::q(false, &["b", "c"], a()),
+        Ast::fp("X", false, Ast::var("X")),
+        Ast::CC(Cmp::AtMost, vec![a(), b()], "1".into()),
+        Ast::CC(Cmp::Exactly, vec![], "0".into()),
+        Ast::CV(Cmp::LessThan, vec![a()], vec![b(), c()]),
+    ];
+    let mut out: Vec<Ast> = forms.clone();
+    for x in &forms {
+        out.push(Ast::not(x.clone()));
+        out.push(Ast::q(true, &["a", "b"], x.clone()));
+        out.push(Ast::q(false, &[], x.clone()));
+        out.push(Ast::fp("X", true, x.clone()));
+        out.push(Ast::CC(Cmp::AtLeast, vec![x.clone()], "1".into()));
+        for y in &forms {
+            out.push(Ast::bin(Bin::And, x.clone(), y.clone()));
+            out.push(Ast::bin(Bin::ImpliesInv, x.clone(), y.clone()));
+            out.push(Ast::CC(Cmp::MoreThan, vec![x.clone(), y.clone()], "1".into()));
+            out.push(Ast::CV(Cmp::AtMost, vec![x.clone()], vec![y.clone()]));
+            out.push(Ast::CV(Cmp::Exactly, vec![x.clone(), y.clone()], vec![]));
+            for z in &forms {
+                out.push(Ast::ite(x.clone(), y.clone(), z.clone()));
+            }
+        }
+    }
+    out
+}
